@@ -6,7 +6,8 @@ import json, os, subprocess, sys, tempfile, shutil, time
 V = os.path.dirname(os.path.dirname(os.path.abspath(__file__)))
 REPO = "/repo"
 PROPS = {"H1-sma-rename-local": ["C02"], "H2-ema-expand-fma": ["C03"], "H3-macd-extra-temp": ["C05"], "H4-cross-early-locals": ["C14"],
-         "H5-window-push-reorder": ["C01"], "H6-cmo-guard-rewrite": ["C12"], "H7-adx-swap-independent": ["C05"], "H8-smm-bits-shortcut": ["C04"], "H9-window-from-parts-normalized": ["C01", "C13"]}
+         "H5-window-push-reorder": ["C01"], "H6-cmo-guard-rewrite": ["C12"], "H7-adx-swap-independent": ["C05"], "H8-smm-bits-shortcut": ["C04"], "H9-window-from-parts-normalized": ["C01", "C13"],
+         "H10-psar-flip-comparison": ["C08"], "H11-hma-init-field-order": ["C08"], "H12-cks-commute-half": ["C08"]}
 
 
 def sh(cmd, cwd=None, timeout=7200):
